@@ -123,53 +123,57 @@ theorem first_start_creates_identity (c : StartCfg) (h : c.accepted = true) :
     ∃ r, (step H ({} : St β) (.start c)).1.run = some r ∧ r.discoverable = true ∧ r.version = 1 := by
   simp only [step]
   rw [start_accepted H _ c h]
-  refine ⟨⟨rfl, ?_, ?_, ?_⟩, _, rfl, ?_, ?_⟩
+  refine ⟨⟨rfl, ?_, ?_, ?_, ?_⟩, _, rfl, ?_, ?_⟩
   · simp [ensureDevice, lookup, upsert]
   · simp [ensureDevice, lookup, upsert, names]
+  · intro n hn
+    have : ¬ c.freshId = n := fun e => hn e.symm
+    simp [ownEntity, ensureDevice, lookup, upsert, this]
   · intro r hr; cases hr
     simp [ensureDevice, lookup, upsert, paired, controllers]
   · simp [ensureDevice, lookup, upsert, paired]
   · simp [bump]
 
-/-- Over every history of start / pair / unpair / value change / stop in which no pairing is added or removed under
-    the device id: a restart runs under the same device id and the same long-term key pair, leaves the stored entities
-    as they were before the restart, and the stored controller pairings are exactly the pair / unpair operations of the
-    history applied, in order, to the pairings stored at the beginning (nothing else touches them). -/
+/-- Over EVERY history of start / pair / unpair / value change / stop — also pairings and removals that name the
+    accessory's own device id, which are refused (F16 repair; the earlier form of this theorem had to assume there are
+    none): a restart runs under the same device id and the same long-term key pair, leaves the stored entities as they
+    were before the restart, and the stored controller pairings are exactly the pair / unpair operations of the history
+    applied, in order, to the pairings stored at the beginning (nothing else touches them). -/
 theorem identity_persists (s : St β) (id key : Nat) (hi : Identity id key s) (hist : List Step)
-    (hne : ∀ st ∈ hist, st.name? ≠ some id) (c : StartCfg) (hc : c.accepted = true) :
+    (c : StartCfg) (hc : c.accepted = true) :
     (∃ r, (step H (run H s hist) (.start c)).1.run = some r ∧ r.id = id ∧ r.devPub = key ∧ r.devPriv = some key) ∧
     (step H (run H s hist) (.start c)).1.store.uuid = some id ∧
     lookup id (step H (run H s hist) (.start c)).1.store.entities = some ⟨id, key, some key⟩ ∧
     (step H (run H s hist) (.start c)).1.store.entities = (run H s hist).store.entities ∧
-    controllers id (run H s hist).store.entities = hist.foldl ctlOp (controllers id s.store.entities) := by
-  have h1 := run_identity H hi hist hne
-  refine ⟨?_, ?_, ?_, ?_, run_controllers H hi hist hne⟩
+    controllers id (run H s hist).store.entities = hist.foldl (ctlOp id) (controllers id s.store.entities) := by
+  have h1 := run_identity H hi hist
+  refine ⟨?_, ?_, ?_, ?_, run_controllers H hi hist⟩
   all_goals simp only [step]; rw [start_identity H h1 c hc]
   · exact ⟨_, rfl, rfl, rfl, rfl⟩
   · exact h1.dev
 
-/-- The same from an empty storage directory: whatever happens between the first start and a later restart (no pairing
-    under the device id), the restart runs under the id and key pair created by the first start. -/
+/-- The same from an empty storage directory: whatever happens between the first start and a later restart — including
+    pairings and removals under the device id —, the restart runs under the id and key pair created by the first start. -/
 theorem identity_persists_from_fresh (c0 c : StartCfg) (h0 : c0.accepted = true) (hc : c.accepted = true)
-    (hist : List Step) (hne : ∀ st ∈ hist, st.name? ≠ some c0.freshId) :
+    (hist : List Step) :
     ∃ r, (run H ({} : St β) (.start c0 :: hist ++ [.start c])).run = some r ∧
       r.id = c0.freshId ∧ r.devPub = c0.freshKey ∧ r.devPriv = some c0.freshKey := by
   have hi := (first_start_creates_identity H c0 h0).1
-  have := (identity_persists H _ _ _ hi hist hne c hc).1
+  have := (identity_persists H _ _ _ hi hist c hc).1
   simpa only [run, run_append] using this
 
-/-- hypotheses of `identity_persists` are satisfiable: after a first start, a history with pairings, removals, a value
-    change, a stop and restarts, none under the device id 10000 -/
-example : ∃ c : StartCfg, c.accepted = true ∧
-    ∀ st ∈ [Step.pair 1 500, .stop, .start c, .unpair 1, .setValue [0] (.leaf 3), .pair 2 501], st.name? ≠ some 10000 :=
-  ⟨{ pin := dec8 102003, setupId := [72,79,77,69], cat := 8, nameEmpty := false, freshId := 10000, freshKey := 20000, db := .obj [] },
-   by rfl, by decide⟩
+/-- the history of F16 on the model of the repaired code: a pairing under the device id between two starts changes
+    nothing -/
+example : ((run (fun _ => 0) ({} : St Nat)
+      [.start ⟨dec8 102003, [], 8, false, 10000, 20000, .obj []⟩, .pair 10000 501, .unpair 10000,
+       .start ⟨dec8 102003, [], 8, false, 10000, 20000, .obj []⟩]).run.map
+        fun r => (r.devPub, r.devPriv)) = some (20000, some 20000) := by rfl
 
-/-- F16 (known finding, outside the hypothesis above): a pairing stored under the accessory's own device id replaces
-    the accessory's entity; the next start runs under the controller's key and has no private key. -/
+/-- F16 before the repair (`stepOld`: no guard): a pairing stored under the accessory's own device id replaces the
+    accessory's entity; the next start runs under the controller's key and has no private key. -/
 theorem identity_lost_when_pairing_name_is_device_id_refuted :
     ∃ (c : StartCfg) (k : Nat), c.accepted = true ∧ k ≠ c.freshKey ∧
-      ((run (fun _ => 0) ({} : St Nat) [.start c, .pair c.freshId k, .start c]).run.map
+      (([Step.start c, .pair c.freshId k, .start c].foldl (fun s st => (stepOld (fun _ => 0) s st).1) ({} : St Nat)).run.map
         fun r => (r.devPub, r.devPriv)) = some (k, none) :=
   ⟨{ pin := dec8 102003, setupId := [], cat := 8, nameEmpty := false, freshId := 10000, freshKey := 20000, db := .obj [] },
    501, by rfl, by decide, by rfl⟩
@@ -258,16 +262,14 @@ theorem values_never_increment (s : St β) (v : Nat) (db : J) (hv : s.store.vers
 
 example : ∀ st ∈ [Step.pair 1 500, .stop, .unpair 1, .setValue [0] (.leaf 3), .pair 2 501], st.touchesConfig = false := by decide
 
-/-- After every step of every history (no pairing under the device id): a live transport advertises itself as
-    discoverable exactly when no controller pairing is stored — and that is what the Go criterion "at most one stored
-    entity" amounts to. -/
-theorem discoverable_iff_unpaired (s : St β) (id key : Nat) (hi : Identity id key s) (hist : List Step)
-    (hne : ∀ st ∈ hist, st.name? ≠ some id) :
+/-- After every step of EVERY history: a live transport advertises itself as discoverable exactly when no controller
+    pairing is stored — and that is what the Go criterion "at most one stored entity" amounts to. -/
+theorem discoverable_iff_unpaired (s : St β) (id key : Nat) (hi : Identity id key s) (hist : List Step) :
     ∀ r, (run H s hist).run = some r →
       (r.discoverable = (controllers id (run H s hist).store.entities).isEmpty ∧
        r.discoverable = !paired (run H s hist).store.entities) := by
   intro r hr
-  have h1 := run_identity H hi hist hne
+  have h1 := run_identity H hi hist
   have h2 := (h1.run r hr).2.2.2
   refine ⟨h2, ?_⟩
   rw [h2, paired_iff id _ _ h1.nodup h1.dev]; simp
